@@ -27,8 +27,9 @@ ALTS = {
     "plain": {"type": "string"},
     "refenum": {"$ref": "#/definitions/E"},
     "refnew": {"$ref": "#/definitions/N"},
+    "refplain": {"$ref": "#/definitions/L"},   # a NAMED unconstrained string: a newtype whose FromStr cannot fail
 }
-EXTRA_DEFS = {"E": {"type": "string", "enum": ["x", "y"]}, "N": {"type": "string", "minLength": 3}}
+EXTRA_DEFS = {"E": {"type": "string", "enum": ["x", "y"]}, "N": {"type": "string", "minLength": 3}, "L": {"type": "string"}}
 
 
 def cases(tier, seed):
@@ -50,7 +51,7 @@ def cases(tier, seed):
             p = shapes.place(sh, shapes.CONTEXT[cid])
             if p:
                 out.append(p)
-    names = list(ALTS) if tier != "quick" else ["uuid", "enum", "max2", "email", "host", "plain", "refnew"]
+    names = list(ALTS) if tier != "quick" else ["uuid", "enum", "max2", "email", "host", "plain", "refnew", "refplain"]
     combos = list(itertools.permutations(names, 2))
     if tier != "quick":
         combos += list(itertools.permutations(["uuid", "enum", "max2", "email", "host", "date"], 3))
@@ -101,6 +102,9 @@ def execute(cases_, tier, seed):
                     dis.append({"string": s, "route": k, "route_ok": rr["ok"], "deserialize_ok": de_ok})
                 elif de_ok and (rr.get("w") or {}).get("v") != de_w:
                     val.append({"string": s, "route": k, "route_value": (rr.get("w") or {}).get("v"), "deserialize_value": de_w})
+                elif de_ok and rr.get("dbg") is not None and r.get("dbg") is not None and rr.get("dbg") != r.get("dbg"):
+                    # same wire form, different value (e.g. another variant of an untagged enum): "gives the same value" is about the value
+                    val.append({"string": s, "route": k, "route_value": rr.get("dbg"), "deserialize_value": r.get("dbg")})
             if "display" in rec["str"] and de_ok:
                 has_route = True
                 n_probe += 1
